@@ -8,8 +8,7 @@
     * for the names that are no outcome names the counterfactual graph construction never increases the number of keys
       (`cg_count_le`), so the re-association does not add free conditions; the exchange removes one.
   So either an outcome name disappears, or the number of free conditions drops: `idcStarO_step`, `idcStarO_terminates`.
-  Hypotheses (`IdcInv`, preserved by the recursion): dicts of well-formed keys over the graph, no key self-intervened, and every
-  variable that occurs both as an outcome and as a condition has a parent in `G`.
+  Hypotheses (`IdcInv`, preserved by the recursion): dicts of well-formed keys over the graph, no key self-intervened.
 -/
 import Y0.Lemmas.CfIdcTermB
 
@@ -25,7 +24,6 @@ structure IdcInv (G : MG Name) (O C : Event) : Prop where
   cnames : ∀ p ∈ C, p.2.name = p.1.name
   keyOK : ∀ k, k ∈ O.keys ∨ k ∈ C.keys → KeyOK G k
   nsi : ∀ k, k ∈ O.keys ∨ k ∈ C.keys → isNotSelfIntervened k = true
-  shared : ∀ o ∈ O.keys, ∀ c ∈ C.keys, o.name = c.name → G.parents o.name ≠ []
 
 /-- the variable names of the outcomes -/
 def outNames (O : Event) : List Name := O.keys.map (·.name)
@@ -133,13 +131,8 @@ theorem idcStarO_step (hk : SubsetOrder kordf) (hord : PermOrder ordf) (hG : G.W
                   -- K1: no re-associated outcome is named like the exchanged condition
                   have hK1 : ∀ o ∈ no.keys, o.name ≠ c.name := by
                     intro o ho hname
-                    obtain ⟨o0, ho0, ho0n⟩ := List.mem_map.1 (hnokeys o ho).2
-                    obtain ⟨c0, hc0, hc0n⟩ := List.mem_map.1 (hnckeys c hcmem).2
-                    have hroot : G.parents o.name ≠ [] := by
-                      rw [← ho0n]
-                      exact hinv.shared o0 ho0 c0 hc0 (by rw [ho0n, hc0n, hname])
                     exact rule2_name_free hord hG hdl hbl hEok hEkey hcg no.keys c hr2 o ho (hnokeys o ho).1
-                      (hnckeys c hcmem).1 (hnevnsi' o (hnokeys o ho).1) (hnevnsi' c (hnckeys c hcmem).1) hroot hname
+                      (hnckeys c hcmem).1 (hnevnsi' o (hnokeys o ho).1) (hnevnsi' c (hnckeys c hcmem).1) hname
                   obtain ⟨hno'nd, hno'ent⟩ := exchangeOutcomes_spec cf no c val no' hx
                   have hval : val.name = c.name := by
                     have hcv : (c, val) ∈ nc := Event.get?_mem hg
@@ -167,7 +160,7 @@ theorem idcStarO_step (hk : SubsetOrder kordf) (hord : PermOrder ordf) (hG : G.W
                     rw [hkn]
                     exact (hnokeys k0 hk0).2
                 · -- the invariant
-                  refine ⟨hno'nd, ?_, ?_, ?_, ?_, ?_, ?_⟩
+                  refine ⟨hno'nd, ?_, ?_, ?_, ?_, ?_⟩
                   · unfold Event.keys
                     exact List.Nodup.sublist (List.Sublist.map _ List.filter_sublist) hncnd
                   · intro q hq
@@ -207,13 +200,6 @@ theorem idcStarO_step (hk : SubsetOrder kordf) (hord : PermOrder ordf) (hG : G.W
                         · rw [h, h1', hval]
                           simpa using fun e => hK1 k0 hk0 e.symm
                     · exact hnevnsi' k (hnckeys k (hC'keys k hk')).1
-                  · intro o' ho' c' hc' hname
-                    obtain ⟨k0, hk0, hkn, _⟩ := hno'key o' ho'
-                    obtain ⟨o0, ho0, ho0n⟩ := List.mem_map.1 (hnokeys k0 hk0).2
-                    obtain ⟨c0, hc0, hc0n⟩ := List.mem_map.1 (hnckeys c' (hC'keys c' hc')).2
-                    have := hinv.shared o0 ho0 c0 hc0 (by rw [ho0n, hc0n, ← hkn, hname])
-                    rw [hkn, ← ho0n]
-                    exact this
                 · -- the measure
                   have hle : nOutNames no' ≤ nOutNames O := by
                     unfold nOutNames
